@@ -25,6 +25,15 @@ type conv struct {
 func newConv(decls map[int]*ga.Type) *conv {
 	c := &conv{names: map[string]*ga.Type{}, pkgs: map[string]bool{}}
 	for _, d := range decls {
+		if f := ga.HAFormOf(d.ID); f != nil && f.Generic != "" {
+			// an instance of a generic type is written lib.G[args]: keyed by the arguments as they are read back
+			var as []string
+			for _, a := range f.Args {
+				as = append(as, a.RefSexp())
+			}
+			c.names[pkgName(d.Ext)+"."+f.Generic+"["+strings.Join(as, ",")+"]"] = d
+			continue
+		}
 		c.names[pkgName(d.Ext)+"."+d.Name] = d
 	}
 	return c
@@ -72,6 +81,12 @@ func (c *conv) typ(e ast.Expr) string {
 		d, ok := c.names[x.Name+"."+t.Sel.Name]
 		if !ok {
 			fail("unknown type %s.%s", x.Name, t.Sel.Name)
+		}
+		return fmt.Sprintf("(ref %d)", d.ID)
+	case *ast.IndexExpr, *ast.IndexListExpr:
+		d := c.instance(e)
+		if d == nil {
+			fail("unknown generic instance")
 		}
 		return fmt.Sprintf("(ref %d)", d.ID)
 	case *ast.StarExpr:
@@ -130,6 +145,34 @@ func fieldIndex(name string) (int, bool) {
 	return n, name[0] == 'f'
 }
 
+// instance: the declaration of pkg.G[args] (nil if e is not such an expression or it is unknown).
+func (c *conv) instance(e ast.Expr) *ga.Type {
+	var x ast.Expr
+	var args []ast.Expr
+	switch t := e.(type) {
+	case *ast.IndexExpr:
+		x, args = t.X, []ast.Expr{t.Index}
+	case *ast.IndexListExpr:
+		x, args = t.X, t.Indices
+	default:
+		return nil
+	}
+	sel, ok := x.(*ast.SelectorExpr)
+	if !ok {
+		return nil
+	}
+	pk, ok := sel.X.(*ast.Ident)
+	if !ok {
+		return nil
+	}
+	c.pkgs[pk.Name] = true
+	var as []string
+	for _, a := range args {
+		as = append(as, c.typ(a))
+	}
+	return c.names[pk.Name+"."+sel.Sel.Name+"["+strings.Join(as, ",")+"]"]
+}
+
 // kindOf: "map", "seq" for the type of a composite literal.
 func (c *conv) litKind(e ast.Expr) string {
 	switch t := e.(type) {
@@ -137,6 +180,15 @@ func (c *conv) litKind(e ast.Expr) string {
 		return "mapl"
 	case *ast.ArrayType:
 		return "seq"
+	case *ast.IndexExpr, *ast.IndexListExpr:
+		if d := c.instance(e); d != nil {
+			switch d.Elem.K {
+			case ga.KMap:
+				return "mapl"
+			case ga.KSlice, ga.KArray:
+				return "seq"
+			}
+		}
 	case *ast.SelectorExpr:
 		x, _ := t.X.(*ast.Ident)
 		if x != nil {
